@@ -480,10 +480,15 @@ impl Check for C12 {
         "E1 argument lattice applied in reached states of the real objects, exact-rational oracle"
     }
     fn n_items(&self, tier: Tier) -> usize {
-        pairs(tier).len() + 1
+        pairs(tier).len() + 2
     }
     fn run_item(&self, tier: Tier, idx: usize, journal: Option<&JournalFile>) -> Result<Value, String> {
         let ps = pairs(tier);
+        if idx == ps.len() + 1 {
+            // setters (and every other operation) on resamplers with zero channels: the same
+            // answers as a one-channel twin
+            return crate::ctrl::zero_channel_item("C12");
+        }
         let mut acc = Acc {
             transitions: 0,
             states: 0,
@@ -503,12 +508,16 @@ impl Check for C12 {
                 abs.extend(around(b));
             }
             abs.extend([orig, orig * (1.0 + m) / 2.0, orig / ((1.0 + m) / 2.0)]);
+            // changes far below a per mille (a rate controller trimming for clock drift): they
+            // are changes, and an accepted one has to be stored
+            abs.extend([orig * (1.0 + 8.0e-10), orig * (1.0 + 9.0e-7), orig * (1.0 - 3.0e-7), next_up(orig), next_down(orig)]);
             abs.extend(specials());
             let mut rel: Vec<f64> = Vec::new();
             for b in [m, 1.0 / m] {
                 rel.extend(around(b));
             }
             rel.extend([1.0, (1.0 + m) / 2.0, 2.0 / (1.0 + m)]);
+            rel.extend([1.0 + 8.0e-10, 1.0 + 9.0e-7, 1.0 - 3.0e-7, next_up(1.0), next_down(1.0)]);
             rel.extend(specials());
             for cfg in cfgs_for(orig, m, chunk) {
                 // at the ends of the f64 range only the setters are exercised (a processing call at
@@ -552,6 +561,12 @@ impl Check for C12 {
         cov.insert("states_note".into(), json!("states = (configuration, reached state) pairs in which the whole argument lattice was applied: fresh, ramp pending, after reset, after an earlier chunk-size and ratio change"));
     }
     fn replay(&self, replay: &Value) -> Result<(bool, String), String> {
+        if replay.get("point").and_then(|x| x.as_str()) == Some("zero channels") {
+            let v = crate::ctrl::zero_channel_item("C12")?;
+            let sig = replay.get("signature").and_then(|x| x.as_str()).unwrap_or("");
+            let hit = v["found"].as_array().map(|a| a.iter().any(|f| f["sig"] == sig && f["cfg"] == replay["cfg"])).unwrap_or(false);
+            return Ok((hit, if hit { format!("    VIOLATES C12 [{}] (zero-channel walk)\n", sig) } else { "  the zero-channel walk finds nothing for this configuration\n".to_string() }));
+        }
         let cfg = Cfg::from_json(&replay["cfg"])?;
         let hist = history_parse(replay["history"].as_str().ok_or("history missing")?)?;
         let (prefix, last) = hist.split_at(hist.len().saturating_sub(1));
